@@ -254,6 +254,18 @@ FILE_DEFAULT_PROPS = {
 }
 
 
+def sig_tags(gen, f):
+    """`//~` tags written on the signature lines of a sidecar proof fn."""
+    tags = []
+    for ln in range(f['sig_line'], min(f.get('body_line', f['sig_line']), f['sig_line'] + 12) + 1):
+        t = gen.linemap[ln - 1][1]
+        o = gen.linemap[ln - 1][0]
+        if t and (o is None or o.startswith('C:')) and ('requires' not in gen.text.split('\n')[ln - 1]) and ('ensures' not in gen.text.split('\n')[ln - 1]):
+            tags.extend(t)
+            break
+    return tags
+
+
 def default_props(gen, f):
     for ln in range(f['sig_line'], f['end_line'] + 1):
         o = gen.linemap[ln - 1][0]
@@ -271,7 +283,7 @@ def index_fns(gen):
     out = []
     for f in fns:
         out.append({'key': f.key, 'name': f.name, 'start_line': line_of(f.item_start), 'end_line': line_of(f.body_close),
-                    'sig_line': line_of(f.fn_pos)})
+                    'sig_line': line_of(f.fn_pos), 'body_line': line_of(f.body_open)})
     return out
 
 
@@ -317,7 +329,7 @@ def build_storage_unit(cfg, n, outdir, extra_sidecar=None, tail_text=None, unit=
                 props[k] = s
     for f in gen.fns:
         s = props.get(f['key'])
-        f['props'] = list(s.props) if s else (list(gen.linemap[f['sig_line'] - 1][1]) or default_props(gen, f))
+        f['props'] = list(s.props) if s else (sig_tags(gen, f) or default_props(gen, f))
         f['contract'] = bool(s)
         f['external'] = bool(s and s.kind == 'externbody')
     gen.panic_hits = dict(table.hits)
@@ -469,11 +481,81 @@ def build_macros_unit(cfg, n, outdir):
             props[k] = s
     for f in gen.fns:
         s = props.get(f['key'])
-        f['props'] = list(s.props) if s else (list(gen.linemap[f['sig_line'] - 1][1]) or default_props(gen, f))
+        f['props'] = list(s.props) if s else (sig_tags(gen, f) or default_props(gen, f))
         f['contract'] = bool(s)
         f['external'] = bool(s and s.kind == 'externbody')
     os.makedirs(outdir, exist_ok=True)
     gen.path = os.path.join(outdir, 'macros_%s.rs' % cfg.name.replace('+', '_'))
     with open(gen.path, 'w') as fh:
         fh.write(gen.text)
+    return gen
+
+
+# ---------------------------------------------------------------- template unit (C06, C07, C09): R-tmpl
+
+TMPL_DELEGATION_CHECKS = [
+    # (file, regex that must match the generator / trait text): the hand-written schema mirrors exactly these delegations
+    ('macros/src/generate/world.rs', r'pub\s+struct\s+#Archetype\s*\{\s*#\[doc\(hidden\)\]\s*pub\s+data:\s*#StorageN<#Archetype,\s*#\(#Component\),\*>,\s*\}'),
+    ('macros/src/generate/world.rs', r'fn\s+len\(&self\)\s*->\s*usize\s*\{\s*self\.data\.len\(\)\s*\}'),
+    ('macros/src/generate/world.rs', r'fn\s+version\(&self\)\s*->\s*ArchetypeVersion\s*\{\s*self\.data\.version\(\)\s*\}'),
+    ('macros/src/generate/world.rs', r'fn\s+entities\(&self\)\s*->\s*&\[Entity<#Archetype>\]\s*\{\s*self\.data\.get_slice_entities\(\)\s*\}'),
+    ('macros/src/generate/world.rs', r'fn\s+get_all_slices_mut\(&mut\s+self\)\s*->\s*#ArchetypeSlices\s*\{\s*self\.data\.get_all_slices_mut\(\)\s*\}'),
+    ('macros/src/generate/world.rs', r'impl\s+ArchetypeCanResolve<Entity<#Archetype>>\s+for\s+#Archetype\s*\{(?:(?!\bimpl\b).)*?fn\s+resolve_destroy\(&mut\s+self,\s*entity:\s*Entity<#Archetype>\)[^{]*\{\s*self\.data\.destroy\(entity\)\s*\}'),
+    ('macros/src/generate/world.rs', r'pub\s+struct\s+#ArchetypeSlices<\'a>\s*\{\s*pub\s+entity:\s*&\'a\s*\[Entity<#Archetype>\],\s*#\(\s*pub\s+#component:\s*&\'a\s+mut\s*\[#Component\],\s*\)\*\s*\}'),
+    ('macros/src/generate/world.rs', r'fn\s+new\(\s*entity:\s*&\'a\s*\[Entity<#Archetype>\],\s*#\(#component:\s*&\'a\s+mut\s*\[#Component\]\),\*\s*\)\s*->\s*Self\s*\{\s*Self\s*\{\s*entity,\s*#\(#component\),\*\s*\}\s*\}'),
+    ('macros/src/generate/world.rs', r'fn\s+raw_new\(#\(#component:\s*#Component,\)\*\)\s*->\s*Self\s*\{\s*Self\s*\{\s*#\(#component,\)\*\s*\}\s*\}'),
+    ('src/traits.rs', r'fn\s+destroy<K:\s*EntityKey>\(&mut\s+self,\s*entity:\s*K\)\s*->\s*Option<Self::Components>\s*where\s*Self:\s*ArchetypeCanResolve<K>,?\s*\{\s*<Self\s+as\s+ArchetypeCanResolve<K>>::resolve_destroy\(self,\s*entity\)\s*\}'),
+]
+
+
+def check_delegations(log):
+    cache = {}
+    for rel, rx in TMPL_DELEGATION_CHECKS:
+        if rel not in cache:
+            t = read_repo(rel)
+            t = re.sub(r'//[^\n]*', '', t)          # comments
+            t = re.sub(r'#\[inline(\(always\))?\]', '', t)
+            cache[rel] = t
+        if not re.search(rx, cache[rel], re.S):
+            raise ExtractError('R-tmpl: the schema model is out of date: %s no longer contains the delegation matched by /%s/' % (rel, rx[:90]))
+        log.rule('R-tmpl-eq', rel)
+
+
+TMPL_ARCHS = [{'type': 'ArchATag', 'field': 'arch_a', 'suffix': 'a'}, {'type': 'ArchBTag', 'field': 'arch_b', 'suffix': 'b'}]
+# the schema query:  |entity: &Entity<_>, direct: &EntityDirect<_>, x: &mut CompX|
+TMPL_PARAMS = [('EntityWild', None, False), ('EntityDirectWild', None, False), ('Component', 'comp_x', True)]
+
+
+def build_templates_unit(cfg, n, outdir):
+    from . import tmpl
+    log = Log()
+    check_delegations(log)
+    table = load_panic_table()
+    sc = load_sidecar('templates.vsp', cfg)
+    schema = add_markers(apply_sidecar_cfg(open(os.path.join(CONTRACTS, 'tmpl_schema.rs')).read(), cfg), 'C:tmpl_schema.rs')
+    iter_rs = transform_plain('src/iter.rs', 'iter', cfg, sc, table, log)
+    raw = add_markers(read_repo('macros/src/generate/query.rs'), 'query')
+    harness = []
+    blocks = tmpl.template_blocks(raw, 'generate_query_iter_destroy', 'iter_bind_mut', TMPL_ARCHS, TMPL_PARAMS, 'decide_destroy', log)
+    harness.append('fn tmpl_iter_destroy(world: &mut WorldS, tr_a: &mut Ghost<Seq<Visit>>, tr_b: &mut Ghost<Seq<Visit>>)\n{\n'
+                   + '\n'.join(blocks) + '\n}\n')
+    blocks = tmpl.template_blocks(raw, 'generate_query_iter', 'iter_bind_mut', TMPL_ARCHS, TMPL_PARAMS, 'decide_iter', log)
+    harness.append('fn tmpl_iter(world: &mut WorldS, tr_a: &mut Ghost<Seq<Visit>>, tr_b: &mut Ghost<Seq<Visit>>)\n{\n'
+                   + '\n'.join(blocks) + '\n}\n')
+    htext = '\n'.join(harness)
+    fspec = sc.files.get('macros/src/generate/query.rs') or sidecar.FileSpec('macros/src/generate/query.rs')
+    htext, _ = apply_contracts(htext, fspec, log, 'macros/src/generate/query.rs', None)
+    tail = ('// ======== src/iter.rs\n' + iter_rs + '\n// ======== schema (hand-written model of generated code, A-gen-arch)\n' + schema +
+            '\n// ======== instantiated templates of macros/src/generate/query.rs (R-tmpl, R-iife)\n' + htext)
+    gen = build_storage_unit(cfg, 2, outdir, tail_text=tail, unit='templates')
+    for k, v in log.rules.items():
+        gen.log.rules[k] = gen.log.rules.get(k, 0) + v
+    gen.log.undecided.update(log.undecided)
+    gen.sources += ['src/iter.rs', 'macros/src/generate/query.rs', 'macros/src/generate/world.rs (delegation text-equality only)']
+    # props of the harness functions
+    for f in gen.fns:
+        s = fspec.fns.get(f['key'])
+        if s:
+            f['props'] = list(s.props)
+            f['contract'] = True
     return gen
